@@ -1,2 +1,53 @@
-(* Props/C01.v — placeholder, theorems added in a later commit *)
-From NIR Require Import Model.Serial.
+(* Props/C01.v — HDF5 round trip returns an equivalent graph.
+   Proved here: the file round trip REFINES an explicit specification of what it does to the dictionary
+   form (norm_entries): reader inverts writer on every branch; strings, arrays and the edge list survive
+   exactly, at every depth.  Not proved (kept visible as c01_full_statement): that re-running the
+   constructors on the normalised dictionary yields an equivalent node for all 17 primitives — that part is
+   established by the correspondence run (model = implementation on random graphs) and the strict oracle. *)
+From NIR Require Import Model.Serial Proofs.SerialProofs Corr.Obs.
+
+Theorem c01_reader_inverts_writer :
+  forall fuel kv ms, write_rec fuel kv = Ok ms -> norm_entries kv = Ok (hdf_entries ms).
+Proof. exact write_rec_refines. Qed.
+
+Theorem c01_read_is_from_dict_of_normalised :
+  forall g t, write g = Ok t ->
+    exists d', norm_entries (to_dict g) = Ok d' /\ read t = from_dict d' /\ read_version t = Ok nir_version.
+Proof. exact read_write_refines. Qed.
+
+(* the same edge list in the same order: duplicates, self-loops and dotted addresses included *)
+Theorem c01_edges_preserved :
+  forall es v', norm_val (VList (map (fun e => VTuple [VStr (fst e); VStr (snd e)]) es)) = Ok v' ->
+    edge_rows v' = Ok es.
+Proof. exact edges_round_trip. Qed.
+
+(* the primitive type tag, padding modes and every other string survive, at every nesting depth *)
+Theorem c01_strings_preserved :
+  forall d d' p s, norm_entries d = Ok d' -> reach d p (VStr s) -> reach d' p (VStr s).
+Proof. exact strings_survive_deep. Qed.
+
+(* nothing is invented: every entry read back comes from an entry written *)
+Theorem c01_nothing_invented :
+  forall kv kv' k v', norm_entries kv = Ok kv' -> In (k, v') kv' -> exists v, In (k, v) kv /\ norm_val v = Ok v'.
+Proof. exact norm_entries_from. Qed.
+
+(* Python integers keep their value; integer tuples/lists become arrays of the same integers *)
+Theorem c01_ints_keep_value : forall z v', norm_val (VInt z) = Ok v' -> int_view v' = Some z.
+Proof. exact norm_val_int. Qed.
+
+Theorem c01_int_sequences_keep_value :
+  forall l zs v', ints_view l = Some zs -> l <> [] ->
+    norm_val (VTuple l) = Ok v' \/ norm_val (VList l) = Ok v' -> seq_view v' = Some zs.
+Proof. exact norm_val_ints. Qed.
+
+(* the full statement (NOT proved as a theorem; see the header) *)
+Definition c01_full_statement : Prop :=
+  forall e g t, eval e = Ok g -> write g = Ok t -> exists g', read t = Ok g' /\ node_equiv g' g = true.
+
+Print Assumptions c01_reader_inverts_writer.
+Print Assumptions c01_read_is_from_dict_of_normalised.
+Print Assumptions c01_edges_preserved.
+Print Assumptions c01_strings_preserved.
+Print Assumptions c01_nothing_invented.
+Print Assumptions c01_ints_keep_value.
+Print Assumptions c01_int_sequences_keep_value.
